@@ -52,6 +52,12 @@ func scenarios(tier string) []vlib.Scenario {
 	for _, a := range []string{"closepending-openup", "closepending-meta", "closepending-call"} {
 		out = append(out, vlib.Scenario{Name: params{a, 0, 0}.name(), P: params{a, 0, 0}})
 	}
+	// a writer with a long context is parked in the hand-over to the flush loop (which does not run during an
+	// outage): Upstream.Close and a second writer, each with a short context of its own, must still return in time
+	out = append(out, vlib.Scenario{Name: params{"writeblocked", 0, 0}.name(), P: params{"writeblocked", 0, 0}})
+	out = append(out, vlib.Scenario{Name: params{"writeblocked", 0, 1}.name(), P: params{"writeblocked", 0, 1}})
+	// an option value the wire layer refuses by panicking (the caller recovers): later calls still work
+	out = append(out, vlib.Scenario{Name: params{"badqos", 0, 0}.name(), P: params{"badqos", 0, 0}})
 	if tier == "thorough" {
 		for _, a := range apis {
 			if a != "openup" && a != "meta" && a != "upclose" && a != "connclose" {
@@ -265,7 +271,7 @@ func (w *world) main() {
 	defer scancel()
 	w.Phase = "setup"
 	api := w.p.API
-	needUp := api == "writeflush" || api == "upclose" || api == "writelate"
+	needUp := api == "writeflush" || api == "upclose" || api == "writelate" || api == "writeblocked"
 	needDown := api == "read" || api == "readmeta" || api == "downclose" || api == "downclose-flood"
 	if needUp && api == "writelate" {
 		// an ack timeout is configured: an acknowledgement may arrive after its waiter has given up
@@ -337,6 +343,40 @@ func (w *world) main() {
 		w.timed("SendMetadata", callTimeout, false, func(ctx context.Context) error {
 			return w.Conn.SendMetadata(ctx, &message.BaseTime{SessionID: "s", Name: "other"})
 		})
+		w.timed("Conn.Close", callTimeout, false, func(ctx context.Context) error { return w.Conn.Close(ctx) })
+		pwg.Wait()
+		api = "connclose"
+	case "badqos":
+		w.timed("OpenDownstream(QoS 7)", callTimeout, false, func(ctx context.Context) (err error) {
+			defer func() {
+				if r := recover(); r != nil {
+					err = fmt.Errorf("panic: %v", r)
+				}
+			}()
+			_, err = w.Conn.OpenDownstream(ctx, kit.Filter("src9"), iscp.WithDownstreamQoS(message.QoS(7)))
+			return err
+		})
+	case "writeblocked":
+		w.unreachable = true
+		w.B.Cut(w.B.Live())
+		vsched.Quiesce()
+		if vsched.Choose("block-when", 2) == 1 {
+			vsched.Sleep(3*time.Second, "h:outage")
+		}
+		var pwg vsched.WaitGroup
+		pwg.Add(1)
+		vsched.Go("h:parked-writer", func() {
+			defer pwg.Done()
+			pctx, pcancel := kit.Ctx(40 * time.Second)
+			defer pcancel()
+			w.up.Write(pctx, kit.IDA, "parked")
+		})
+		vsched.Quiesce()
+		if vsched.Choose("second-writer-first", 2) == 1 {
+			w.timed("Write", callTimeout, false, func(ctx context.Context) error { return w.up.Write(ctx, kit.IDA, "second") })
+		}
+		w.timed("Upstream.Close", callTimeout, false, func(ctx context.Context) error { return w.up.U.Close(ctx) })
+		w.timed("Write", callTimeout, false, func(ctx context.Context) error { return w.up.Write(ctx, kit.IDA, "third") })
 		w.timed("Conn.Close", callTimeout, false, func(ctx context.Context) error { return w.Conn.Close(ctx) })
 		pwg.Wait()
 		api = "connclose"
